@@ -9,6 +9,7 @@ import Regatta.Driver.WireMode
 import Regatta.Driver.RestoreMode
 import Regatta.Driver.CrashMode
 import Regatta.Driver.ApiMode
+import Regatta.Driver.AuthMode
 /-
   Model driver: one operation per input line, one answer per output line.
   usage: driver <mode> < ops.txt > model.txt
@@ -36,6 +37,7 @@ def main (args : List String) : IO UInt32 := do
   | ["queue"] => loop stdin stdout Driver.QueueMode.step ({} : Driver.QueueMode.St)
   | ["heap"] => loop stdin stdout Driver.QueueMode.hstep ([] : Queue.Heap)
   | ["wire"] => loop stdin stdout Driver.WireMode.step ()
+  | ["auth"] => loop stdin stdout Driver.AuthMode.step ({} : Driver.AuthMode.St)
   | ["api"] => loop stdin stdout Driver.ApiMode.step ({} : Driver.ApiMode.St)
   | ["crash"] => loop stdin stdout Driver.CrashMode.step ({} : Driver.CrashMode.St)
   | ["restore"] => loop stdin stdout Driver.RestoreMode.step ()
